@@ -457,6 +457,17 @@ def evalPointerFault (outs : List String) : Verdict :=
     if b2 != "ok" then .prop "c06_between_retrievable" s!"after restart: {b2}" else .ok "pointerfault"
   | _, _, _, _, _, _, _ => .bad "pointerfault fields"
 
+/-- `kind=snapshotflush`: the pending headers of the range are flushed right after the deleter opened its first read transaction -/
+def evalSnapshotFlush (outs : List String) : Verdict :=
+  match kv? outs "parked", kv? outs "delete", kvNat? outs "tail", kv? outs "stored", kvNat? outs "handlercalls", kvNat? outs "unreadableAtCall" with
+  | some "yes", some d, some tl, some stored, some calls, some unread =>
+    if unread != 0 then .prop "c14_readable_at_call" s!"{unread} of {calls} handler calls could not read their header" else
+    if d != "ok" then .prop "c08_accepts_valid_ranges" s!"DeleteRange(1,4)={d} (tail={tl})" else
+    if calls != 3 then .prop "c14_once_per_removed" s!"{calls} handler calls for 3 removed headers" else
+    if tl != 4 || stored != "4,5,6,7" then .prop "c08_removed" s!"tail={tl} stored={stored}, expected 4..7" else .ok "snapshotflush"
+  | some _, _, _, _, _, _ => .ok "snapshotflush-notparked"
+  | _, _, _, _, _, _ => .bad "snapshotflush fields"
+
 /-- `kind=flushvsdelete`: a flush starting while the deleter is inside the deletion of an unflushed header -/
 def evalFlushVsDelete (outs : List String) : Verdict :=
   match kv? outs "parked", kv? outs "delete", kv? outs "retrievable", kv? outs "afterrestart" with
@@ -471,6 +482,7 @@ healed (`kind=parfail`).  Pure predicates from the texts of C08 / C14 / C04 on t
 def evalParFail (tag : String) (ins outs : List String) : Verdict :=
   if kv? ins "kind" == some "pointerfault" then evalPointerFault outs else
   if kv? ins "kind" == some "flushvsdelete" then evalFlushVsDelete outs else
+  if kv? ins "kind" == some "snapshotflush" then evalSnapshotFlush outs else
   if kv? ins "kind" == some "stopsync" then evalStopSync ins outs else
   if kv? ins "kind" == some "readduringdelete" then evalReadDuringDelete ins outs else
   if kv? ins "kind" == some "queued" then evalQueued ins outs else
